@@ -13,7 +13,36 @@ import (
 	"math/rand"
 	"sort"
 	"strings"
+
+	"verif/vlib"
 )
+
+// caseCtx batches the evidence counters of one case locally and hands them to
+// the run once, at the end of the case (the run's counters sit behind one mutex
+// and the hot loops below count several times per query point).
+type caseCtx struct {
+	*vlib.Case
+	counts map[string]int64
+	undec  map[string]int64
+}
+
+func newCase(c *vlib.Case) *caseCtx {
+	return &caseCtx{Case: c, counts: map[string]int64{}, undec: map[string]int64{}}
+}
+
+func (c *caseCtx) Count(name string, n int64) { c.counts[name] += n }
+func (c *caseCtx) Undecided(reason string)    { c.undec[reason]++ }
+
+func (c *caseCtx) flush() {
+	for k, v := range c.counts {
+		c.Case.Count(k, v)
+	}
+	for k, v := range c.undec {
+		for i := int64(0); i < v; i++ {
+			c.Case.Undecided(k)
+		}
+	}
+}
 
 type vec [3]float64
 
